@@ -22,7 +22,7 @@ class SuperProxy:
         self.after = after
 
 
-def _quant(self: Interp, node, st, kind):
+def _quant(self: Interp, node, st, kind, real=False):
     """forall(range(a,b), lambda j: P)  /  forall(lambda j: P)  (int-typed bound variables)."""
     args = node.args
     rng = None
@@ -33,7 +33,7 @@ def _quant(self: Interp, node, st, kind):
     if not isinstance(lam, ast.Lambda):
         raise Unsupported("quantifier body must be a lambda")
     names = [a.arg for a in lam.args.args]
-    vars_ = [z3.Int(fresh_name(n)) for n in names]
+    vars_ = [(z3.Real if real else z3.Int)(fresh_name(n)) for n in names]
     saved = dict(st.env)
     try:
         for n, v in zip(names, vars_):
@@ -87,6 +87,8 @@ def call_outcomes(self: Interp, node: ast.Call, st: State):
         nm = fn.id
         if nm in ("forall", "exists") and nm not in st.env:
             return [(st, _quant(self, node, st, nm), None)]
+        if nm in ("forall_real", "exists_real") and nm not in st.env:
+            return [(st, _quant(self, node, st, nm[:-5], real=True), None)]
         if nm == "implies":
             a = self.truth(self.eval(node.args[0], st), st)
             if not isinstance(a, bool) and self.in_contract:
